@@ -1087,6 +1087,9 @@ func (r *popRun) construct() (*genetics.Population, error) {
 		return genetics.NewPopulationRandom(3, 2, 3, true, 0.5, r.opts)
 	}
 	spec := seedByName(r.sc.Seed)
+	if r.sc.Seed == "multidisc" {
+		spec = multiDiscSeed()
+	}
 	if spec == nil {
 		panic("unknown seed " + r.sc.Seed)
 	}
@@ -1095,8 +1098,16 @@ func (r *popRun) construct() (*genetics.Population, error) {
 
 // runEpochBody is the harness body: construct, then Epochs x (assign fitness, turn over, check).
 func runEpochBody(c *Ctx, sc EpochScenario, oracles oracleSet, x *Exec, cnt map[string]int64) *popRun {
+	return runEpochBodyOpts(c, sc, oracles, x, cnt, nil, false)
+}
+
+// runEpochBodyOpts: tweak (if set) adjusts the options; keepKeys keeps textual population keys.
+func runEpochBodyOpts(c *Ctx, sc EpochScenario, oracles oracleSet, x *Exec, cnt map[string]int64, tweak func(*neat.Options), keepKeys bool) *popRun {
 	row := cfgRows[sc.Cfg]
-	r := &popRun{c: c, sc: sc, row: row, opts: row.Options(), oracles: oracles, x: x, cnt: cnt}
+	r := &popRun{c: c, sc: sc, row: row, opts: row.Options(), oracles: oracles, x: x, cnt: cnt, keepKeys: keepKeys}
+	if tweak != nil {
+		tweak(r.opts)
+	}
 	if sc.Seed == "randsp" {
 		r.knownGeneless = true
 	}
